@@ -23,6 +23,9 @@ func registerIntrinsics(e *Engine) {
 	registerTime(e)
 	registerMisc(e)
 	registerIO(e)
+	for _, f := range extraIntrinsics {
+		f(e)
+	}
 }
 
 func (e *Engine) reg(name string, in intrinsic) { e.intr[name] = in }
@@ -577,3 +580,20 @@ type prefixIntrinsic struct {
 	match func(name string) bool
 	in    intrinsic
 }
+
+func init() {
+	extraIntrinsics = append(extraIntrinsics, func(e *Engine) {
+		e.reg(vxPath+".Param", func(ex *Exec, fr *frame, args []Value) Value {
+			name := argStr(ex, args[0])
+			def := ex.concreteInt(args[1], "Param default", true)
+			v := def
+			if pv, ok := ex.eng.params[name]; ok {
+				v = pv
+			}
+			ex.choices["param:"+name] = uint64(v)
+			return K(64, uint64(v))
+		})
+	})
+}
+
+var extraIntrinsics []func(e *Engine)
